@@ -36,6 +36,16 @@ type c17Op struct {
 	secure   bool
 	accept   string // "", "true", "false"
 	replyEnc int    // 1 must be encrypted, 0 must be clear, -1 not judged
+	// mismatch: the argument decrypts fine but does not fit the handler's argument type (a field of the wrong
+	// JSON type): the call fails, and the plaintext still must not travel in clear in either direction
+	mismatch bool
+}
+
+// c17Odd has Payload's fields with one of another JSON type.
+type c17Odd struct {
+	Tag  string `json:"tag"`
+	Data string `json:"data"`
+	N    string `json:"n"`
 }
 
 func runC17(t *testing.T, seed uint64, m *Mask) *Report {
@@ -77,6 +87,9 @@ func runC17(t *testing.T, seed uint64, m *Mask) *Report {
 			c.replyEnc = 1
 		default:
 			c.replyEnc = 0
+		}
+		if c.secure && sameKey && !redial && op.Kind != "push" && r.Chance(0.1) {
+			c.mismatch, op.Codec, c.replyEnc = true, 'j', -1
 		}
 		ops = append(ops, c)
 	}
@@ -151,6 +164,16 @@ func runC17(t *testing.T, seed uint64, m *Mask) *Report {
 			}
 			res := new(world.Payload)
 			var cmd erpc.CallCmd
+			if c.mismatch {
+				cmd = sess.Call(rt.Echo, &c17Odd{Tag: op.Tag, Data: op.Data, N: "not-a-number"}, res, st...)
+				simrt.Yield()
+				stt := cmd.Status()
+				op.Done, op.OK = true, stt.OK()
+				if !stt.OK() {
+					op.Code, op.Msg = stt.Code(), stt.Msg()
+				}
+				return
+			}
 			if op.Idx%7 == 5 && !redial {
 				// a caller that does not want the result passes nil: the call must still complete
 				cmd = sess.Call(rt.Echo, arg, nil, st...)
@@ -233,6 +256,18 @@ func runC17(t *testing.T, seed uint64, m *Mask) *Report {
 			}
 			if c.secure && reqPlain {
 				e.Fail("C17/secure-request-in-clear-on-the-wire", "op %s (%s): the plaintext of the argument is in the client-to-server byte stream", op.Tag, info)
+			}
+			if c.secure && bytes.Contains(s2c, []byte(op.Data)) {
+				e.Fail("C17/secure-request-in-clear-on-the-wire", "op %s (%s): the plaintext of the argument travels back in clear in the server-to-client byte stream", op.Tag, info)
+			}
+			if c.mismatch {
+				if op.OK {
+					e.Fail("C17/unexpected-status", "op %s (%s): an argument of the wrong shape was accepted", op.Tag, info)
+				}
+				if _, ran := seen[op.Tag]; ran {
+					e.Fail("C17/handler-argument-differs", "op %s (%s): the handler ran although its argument could not be decoded", op.Tag, info)
+				}
+				continue
 			}
 			if !sameKey && c.secure {
 				if _, ran := seen[op.Tag]; ran {
